@@ -445,18 +445,22 @@ func (self *VM) spawnCoreInternal(
 func threadHandle(thread *Core) *value.Value {
 	return value.NewValueObject(map[string]*value.Value{
 		"join": value.NewValueBuiltinFunction(func(_ value.Executor, cancelCtx *context.Context, span errors.Span, _ ...value.Value) (*value.Value, *value.VmInterrupt) {
+			vh("PreJoin", int64(thread.Corenum), "")
 			select {
 			case <-thread.finished:
 			case <-(*cancelCtx).Done():
+				vh("JoinCancelled", int64(thread.Corenum), "")
 				return nil, value.NewVMTerminationInterrupt(context.Cause(*cancelCtx).Error(), span)
 			}
 
 			if thread.ended != nil {
 				// The thread did not get to a result: `Wait` reports its interrupt and cancels every other thread, this one too.
+				vh("JoinFailed", int64(thread.Corenum), "")
 				<-(*cancelCtx).Done()
 				return nil, value.NewVMTerminationInterrupt(context.Cause(*cancelCtx).Error(), span)
 			}
 
+			vh("Joined", int64(thread.Corenum), "")
 			if len(thread.Stack) == 0 {
 				return value.NewValueNull(), nil
 			}
@@ -472,11 +476,14 @@ func threadHandle(thread *Core) *value.Value {
 // `spawnCore` and `removeCore` must be able to get it.
 func (self *VM) WaitNonConsuming() {
 	for {
+		vh("PreWatchRLock", -2, "")
 		self.Cores.Lock.RLock()
 		remaining := len(self.Cores.Cores)
+		vh("WatchRLock", int64(remaining), "")
 		self.Cores.Lock.RUnlock()
 
 		if remaining == 0 {
+			vh("WatchReturn", -2, "")
 			break
 		}
 
